@@ -13,11 +13,15 @@ func init() {
 		Level: "other",
 		Explanation: "One table-agreement clause of 'interpreted values handed to compiled code have their interpreted methods invoked': the special argument wrapping of compiled calls is triggered by a table keyed on function values (stdlib.MapTypes, re-keyed per interpreter by fixStdlib). " +
 			"R05.1 decides that every key denotes the function value that is actually bound for its name in an interpreter (the default binding, or the fixStdlib override re-keyed from it), that every re-keying reads an existing key, and that sibling functions of identical signature in the same package are keyed alike. " +
+			"R05.2 decides one clause of 'sees the same receiver state': a frame created for an activation (newFrame in call, the MakeFunc wrapper, run) has its slots bound only to fresh storage, so receivers and arguments are copied in with Set and a value-receiver method reached through a pointer works on a copy. " +
+			"R05.3 decides that in the method-set computation the methods a type declares itself take precedence over promoted ones. " +
 			"Method resolution, dynamic dispatch, type assertions and type switches are run-time facts of valueInterface contents and are not decided; wrapper forwarding is decided under C14 (R14.5).",
 		Assumptions: []string{"reflect.Value map keys of package-level functions are equal exactly when they denote the same function"},
 		Run:         runC05,
 	})
 	ruleText["R05.1"] = "for every MapTypes[reflect.ValueOf(p.F)] entry: the value bound for p.F in an interpreter is p.F itself, or fixStdlib both overrides p.F and re-keys mapTypes[override] from reflect.ValueOf(p.F); every re-keying in fixStdlib reads a key that exists in MapTypes; within a package, every bound exported function whose signature is identical to a keyed function's is keyed too"
+	ruleText["R05.3"] = "in the recursive closure of (*itype).methods, no unconditional store merging the result of a recursive call is reachable from the store recording the type's own methods (range over itype.method)"
+	ruleText["R05.2"] = "in every function that creates a frame with newFrame, each element store into the new frame's data vector (directly or through a local slice of it) has as right-hand side reflect.New(t).Elem(), a copier call, a MakeFunc-built function value, or the frozen exception of directly assigned result slots (call: rvalues)"
 }
 
 func runC05(c *Config, r *Report) {
@@ -26,6 +30,8 @@ func runC05(c *Config, r *Report) {
 		r.Errorf("%v", err)
 		return
 	}
+	freshFrameSlots(ic, r, "R05.2")
+	c05R3(ic, r)
 	prog, err := c.load(loadOpts{patterns: []string{"./stdlib"}})
 	if err != nil {
 		r.Errorf("%v", err)
@@ -214,4 +220,96 @@ func variadicAny(f *types.Func) bool {
 		}
 	}
 	return false
+}
+
+// c05R3: shadowing precedence in the method-set computation. The methods declared on a type
+// hide the methods promoted from its embedded, pointed-to or underlying types, so in the
+// function computing a method set the stores of the type's own methods must not be
+// overwritten by a later merge of a recursive result (unless the merge tests for absence).
+func c05R3(ic *IC, r *Report) {
+	fi := ic.fn(r, "itype.methods")
+	if fi == nil {
+		return
+	}
+	methodFld := ic.field("itype", "method")
+	if methodFld == nil {
+		r.Errorf("anchor not resolved: itype.method")
+		return
+	}
+	n := 0
+	ast.Inspect(fi.Decl.Body, func(nd ast.Node) bool {
+		fl, ok := nd.(*ast.FuncLit)
+		if !ok {
+			return true
+		}
+		// the recursive closure variable: fl assigned to an identifier called inside fl
+		var self types.Object
+		for _, p := range enclosingPath(fi.Decl.Body, fl) {
+			if as, ok := p.(*ast.AssignStmt); ok && len(as.Lhs) == 1 && len(as.Rhs) == 1 && as.Rhs[0] == ast.Expr(fl) {
+				if id, ok := as.Lhs[0].(*ast.Ident); ok {
+					self = ic.Info.ObjectOf(id)
+				}
+			}
+		}
+		if self == nil {
+			return true
+		}
+		var own, merges []*ast.AssignStmt
+		ast.Inspect(fl.Body, func(m ast.Node) bool {
+			rs, ok := m.(*ast.RangeStmt)
+			if !ok {
+				return true
+			}
+			isOwn := selFieldNode(ic.Info, rs.X) == methodFld
+			isMerge := false
+			if c, ok := unparen(rs.X).(*ast.CallExpr); ok {
+				if id, ok := unparen(c.Fun).(*ast.Ident); ok && ic.Info.ObjectOf(id) == self {
+					isMerge = true
+				}
+			}
+			if !isOwn && !isMerge {
+				return true
+			}
+			for _, s := range rs.Body.List {
+				as, ok := s.(*ast.AssignStmt)
+				if !ok || len(as.Lhs) != 1 {
+					continue // a guarded merge (if _, ok := res[k]; !ok {...}) is not an unconditional overwrite
+				}
+				if _, ok := unparen(as.Lhs[0]).(*ast.IndexExpr); !ok {
+					continue
+				}
+				if isOwn {
+					own = append(own, as)
+				} else {
+					merges = append(merges, as)
+				}
+			}
+			return true
+		})
+		if len(own) == 0 && len(merges) == 0 {
+			return true
+		}
+		n++
+		if len(own) == 0 || len(merges) < 2 {
+			r.Errorf("R05.3: method-set closure recognised with %d own-method stores and %d merges (1 and >=2 expected)", len(own), len(merges))
+			return true
+		}
+		fg := buildFlow(fl.Body, ic.Info)
+		var bad []string
+		for _, o := range own {
+			for _, m := range merges {
+				if re, ok := fg.reaches(o, m); ok && re {
+					bad = append(bad, "merge at "+ic.pos(m.Pos())+" runs after the own methods are recorded at "+ic.pos(o.Pos()))
+				} else if !ok {
+					bad = append(bad, "undecided: statement not located in the flow graph")
+				}
+			}
+		}
+		r.Check(len(bad) == 0, "R05.3", "itype.methods/own-methods-shadow-promoted", ic.pos(fl.Pos()), fmt.Sprintf("own methods are recorded after the %d unconditional merges of promoted methods", len(merges)),
+			strings.Join(dedupStr(bad), "; ")+": a method promoted from an embedded (or underlying, pointed-to) type replaces the method the type declares itself, so a type that shadows a promoted method with another signature is reported to implement the wrong interfaces (assertions and type switches take the other branch)")
+		return true
+	})
+	if n == 0 {
+		r.Errorf("R05.3: the recursive method-set closure of (*itype).methods was not recognised")
+	}
 }
